@@ -123,6 +123,14 @@ CLAIMED = {
             'concat vs the model.',
             'Trusted: Lean kernel, standard axioms, extract.py, harness. "The measure index of a prefix is a prefix of the measure index" is established by correspondence, not as a theorem.',
             'DESIGN.md §5 C19'),
+    'C17': ('Lean 4 proof: explicit-stack DFS = preorder for every rose tree (induction with the stack as invariant), filtered listing = filter of the listing by closure (C11), unique-listing and frequency lemmas by list induction; grid-order oracle by correspondence',
+            'Theorems C17_dfs_is_preorder (every rose tree, any branching, unbounded depth), C17_filtered_is_subsequence + C17_filter_is_closure (filtered listing = sub-sequence whose '
+            'category lies in the closure of the filter; empty filter lists nothing), C17_unique (sub-list, no repeated encoding, covers every encoding = first occurrences), '
+            'C17_frequencies_sum, C17_metacomments_by_key. Tied on generated documents with comments before/inside/after and nested splits: the listing vs the spine-path order computed '
+            'from the source grid alone, every single-category filter, random sets, unique/frequency/comment queries, is_monophonic, and listing/unique/comments/measures/spine types vs the model.',
+            'Trusted: Lean kernel, standard axioms, extract.py, harness. That the importer\'s tree is the spine-path tree of the grid is C02\'s subject (correspondence); is_monophonic is decided by '
+            'correspondence with the model and the grid oracle only.',
+            'DESIGN.md §5 C17'),
 }
 
 NOT_YET = {}
